@@ -453,7 +453,22 @@ func (x *X) external(fr *Frame, st *State, fn *ssa.Function, args []SV, cc *ssa.
 		x.vc.assume(mkAnd(x.ile(x.ic(0), w), x.ile(w, x.ic(4)), x.ile(w, ln)))
 		x.vc.assume(mkImplies(x.ilt(x.ic(0), ln), x.ile(x.ic(1), w)))
 		x.vc.assume(x.enc.intCmp(token.GEQ, r, x.enc.intConst(0, types.Typ[types.Int32]), types.Typ[types.Int32]))
-		x.enc.assumption("utf8.DecodeRune returns a non-negative rune and a width 1..4 not exceeding the input length (0 only for empty input)")
+		// a one-byte decode is that ASCII byte, or RuneError for a byte that
+		// cannot stand alone
+		{
+			base, off, _, _ := x.sliceParts(s)
+			k := x.elemsKey(x.enc.intSortW(8))
+			first := mkSelect(mkSelect(x.get(st, k), base, arraySort(isz, x.enc.intSortW(8))), off, x.enc.intSortW(8))
+			i32 := types.Typ[types.Int32]
+			b := x.enc.convertInt(first, types.Typ[types.Uint8], i32)
+			x.vc.assume(mkImplies(mkEq(w, x.ic(1)), mkOr(
+				mkEq(r, x.enc.intConst(0xFFFD, i32)),
+				mkAnd(mkEq(r, b), x.enc.intCmp(token.LSS, r, x.enc.intConst(128, i32), i32)))))
+			x.vc.assume(mkImplies(mkAnd(mkEq(w, x.ic(1)), x.enc.intCmp(token.GEQ, b, x.enc.intConst(128, i32), i32)), mkEq(r, x.enc.intConst(0xFFFD, i32))))
+		}
+		// a sequence of more than one byte encodes a rune outside ASCII
+		x.vc.assume(mkImplies(x.ilt(x.ic(1), w), x.enc.intCmp(token.GEQ, r, x.enc.intConst(128, types.Typ[types.Int32]), types.Typ[types.Int32])))
+		x.enc.assumption("utf8.DecodeRune returns a non-negative rune and a width 1..4 not exceeding the input length (0 only for empty input); width > 1 only for runes >= 0x80")
 		return []SV{r, w}
 	case "unicode/utf8.EncodeRune":
 		n := x.vc.fresh("enclen", isz)
